@@ -771,6 +771,23 @@ def mutator_cases():
     C.append(("PlanningProblemSet.add_planning_problem", lambda: PlanningProblemSet([pproblem(100)]), lambda o: o.add_planning_problem(pproblem(101)),
               lambda: PlanningProblemSet([pproblem(100), pproblem(101)])))
     C.append(("Trajectory.append_state", lambda: traj(n=2), lambda o: o.append_state(ks(t=3, x=3.0)), lambda: traj(n=3)))
+    # a dynamic obstacle advanced with update_initial_state: with every optional argument left at its default the history lists receive the
+    # obstacle's own (default: None) signal state and lanelet-id sets; the same object can be constructed directly from those lists
+    from commonroad.scenario.obstacle import DynamicObstacle
+    from commonroad.scenario.obstacle import ObstacleType as _OT
+
+    def dyn(**kw):
+        return DynamicObstacle(**dict(dict(obstacle_id=7, obstacle_type=_OT.CAR, obstacle_shape=rect(c=(0, 0), o=0.0), initial_state=init_state()), **kw))
+    C.append(("DynamicObstacle.update_initial_state(defaults)", lambda: dyn(), lambda o: o.update_initial_state(init_state(t=1, x=2.0)),
+              lambda: dyn(initial_state=init_state(t=1, x=2.0), history=[init_state()], signal_history=[None], center_lanelet_ids_history=[None], shape_lanelet_ids_history=[None])))
+    C.append(("DynamicObstacle.update_initial_state(defaults,twice)", lambda: dyn(),
+              lambda o: (o.update_initial_state(init_state(t=1, x=2.0)), o.update_initial_state(init_state(t=2, x=3.0), current_center_lanelet_ids={1}, current_shape_lanelet_ids={1, 9})),
+              lambda: dyn(initial_state=init_state(t=2, x=3.0), history=[init_state(), init_state(t=1, x=2.0)], signal_history=[None, None], center_lanelet_ids_history=[None, None],
+                          shape_lanelet_ids_history=[None, None], initial_center_lanelet_ids={1}, initial_shape_lanelet_ids={9, 1})))
+    C.append(("DynamicObstacle.update_initial_state(with-ids)", lambda: dyn(initial_center_lanelet_ids={1, 9}, initial_shape_lanelet_ids={1, 9, 2}, initial_signal_state=sig(0)),
+              lambda o: o.update_initial_state(init_state(t=1, x=2.0), sig(1), {2}, {2, 3}),
+              lambda: dyn(initial_state=init_state(t=1, x=2.0), history=[init_state()], signal_history=[sig(0)], center_lanelet_ids_history=[{9, 1}], shape_lanelet_ids_history=[{2, 9, 1}],
+                          initial_center_lanelet_ids={2}, initial_shape_lanelet_ids={3, 2}, initial_signal_state=sig(1))))
     return C
 
 
@@ -794,6 +811,10 @@ def run_mutators(res):
             hx, hy = _try_hash(x), _try_hash(y)
             if hx[0] == "ok" and hy[0] == "ok" and hx[1] != hy[1]:
                 res.violation(f"C12|{label}|equal-but-hash-differs:after-mutation", "", case)
+            if hx[0] != "ok":
+                res.violation(f"C12|{label}|hash-{hx[0]}:directly-constructed-equivalent", "hash() of the object built through the public constructor raises", case)
+            elif hy[0] != "ok":
+                res.violation(f"C12|{label}|hash-{hy[0]}:after-mutation", "hash() of the mutated object raises although it equals a constructed object whose hash exists", case)
         res.outcomes["mutator-route"] += 1
     res.sample({"class": "mutators", "cases": [c[0] for c in mutator_cases()]}, 1)
 
@@ -836,6 +857,22 @@ def run_class(name, spec, res, pairs=False):
         import numpy as np
         for p, v in mkkw().items():
             reps = []
+            if isinstance(v, np.ndarray) and v.dtype.kind == "f" and v.size and not np.any(v == 0.0):
+                # a coordinate that is zero in one object and negative zero (or a negative number that rounds to it at 10 decimals) in the other,
+                # as a rotation there and back produces it: numerically the same point; any equality answer, but equal => same hash
+                for nz in (-0.0, -3e-11):
+                    def x_z(mkkw=mkkw, p=p, v=v):
+                        kw = mkkw(); w = np.array(v, dtype=float); w.flat[0] = 0.0; kw[p] = w
+                        return cls(**kw)
+
+                    def y_z(mkkw=mkkw, p=p, v=v, nz=nz):
+                        kw = mkkw(); w = np.array(v, dtype=float); w.flat[0] = nz; kw[p] = w
+                        return cls(**kw)
+                    try:
+                        x_z(); y_z()
+                        _check_variant(name, f"{p}(first coordinate 0.0 / {nz!r})", x_z, y_z, None, res, {"class": name, "base": basek, "representation": [p, repr(nz)]})
+                    except Exception:
+                        res.guarded += 1
             if isinstance(v, np.ndarray) and v.dtype.kind == "f" and np.any(v == 0.0):
                 # the same point with a negative zero: numerically identical; whether the classes treat it as equal is not stated, but equal => same hash
                 def y_nz(mkkw=mkkw, p=p, v=v):
